@@ -82,7 +82,12 @@ func (k *KVStore) isCompactionOK(t *table.Table) bool {
 }
 
 func (k *KVStore) Compaction() (bool, error) {
-	for _, t := range k.tables {
+	for i, t := range k.tables {
+		if i == len(k.tables)-1 {
+			// The last table is the one PutRaw writes to. Evicting it into itself
+			// would delete the entries that have just been copied.
+			break
+		}
 		if k.isCompactionOK(t) {
 			err := k.evictTable(t)
 			if err != nil {
